@@ -2777,7 +2777,7 @@ impl<'de, 'e> de::Deserializer<'de> for YamlDeserializer<'de, 'e> {
                             } => {
                                 vec![Ev::Scalar {
                                     value,
-                                    tag: SfTag::String,
+                                    tag: SfTag::None,
                                     raw_tag: None,
                                     style,
                                     location,
